@@ -54,9 +54,10 @@ class Geo:
             self.n_sides = len(self.pieces)
             self.verts = None
             return
-        if name == 'Circle':
+        if name in ('Circle', 'Circle2'):
             self.circle = True
-            self.L = 2 * PI
+            self.R = 1.0 if name == 'Circle' else 2.0          # Circle2: one piece of length 4 pi (radius 2)
+            self.L = 2 * PI * self.R
             self.closed = True
             self.breaks = np.array([0.0, self.L])
             self.verts = None
@@ -83,7 +84,7 @@ class Geo:
     def kind(self, side):
         """what the self-interaction of an element on this piece depends on besides its size"""
         if self.circle:
-            return 'circle'
+            return 'circle' if self.R == 1.0 else 'arc%r' % self.R
         if self.pieces is not None and self.pieces[side]['kind'] == 'arc':
             r = self.pieces[side]['r']
             return 'circle' if r == 1.0 else 'arc%r' % r
@@ -113,7 +114,7 @@ class Geo:
     def point(self, side, s):
         s = np.asarray(s, dtype=float)
         if self.circle:
-            return np.array([np.cos(s), np.sin(s)])
+            return np.array([self.R * np.cos(s / self.R), self.R * np.sin(s / self.R)])
         if self.pieces is not None:
             pc = self.pieces[side]
             u = s - self.breaks[side]
@@ -138,7 +139,7 @@ class Geo:
             bd = None
             for sh in (-self.L, 0.0, self.L):
                 cand = np.clip(x + sh, c, d)
-                dist = np.abs(np.angle(np.exp(1j * (cand - x))))
+                dist = np.abs(np.angle(np.exp(1j * (cand - x) / self.R)))
                 if best is None:
                     best, bd = cand, dist
                 else:
@@ -167,7 +168,7 @@ class Geo:
     def chord(self, side, s1, s2):
         """Euclidean distance of two points of one piece"""
         if self.circle:
-            return 2 * abs(math.sin(abs(s2 - s1) / 2))
+            return 2 * self.R * abs(math.sin(abs(s2 - s1) / (2 * self.R)))
         if self.pieces is not None and self.pieces[side]['kind'] == 'arc':
             r = self.pieces[side]['r']
             return 2 * r * abs(math.sin(abs(s2 - s1) / (2 * r)))
